@@ -7,6 +7,7 @@ import (
 	"sync"
 	"sync/atomic"
 
+	multiproof "github.com/crate-crypto/go-ipa"
 	"github.com/crate-crypto/go-ipa/bandersnatch/fr"
 	"github.com/crate-crypto/go-ipa/banderwagon"
 	"github.com/crate-crypto/go-ipa/common"
@@ -35,13 +36,13 @@ func init() {
 		Plan: func(tier string) []Child {
 			var out []Child
 			if tier == "quick" {
-				cfg := [][2]int{{4, 4}, {2, 1}, {5, 16}, {3, 2}}
+				cfg := [][2]int{{3, 4}, {2, 1}, {3, 16}, {2, 2}}
 				for i, k := range cfg {
 					out = append(out, Child{TimeoutS: pick(tier, 900, 7200), Flavour: "race", NCPU: k[0], GOMAXPROCS: k[1], Shard: i, NShards: len(cfg), Params: map[string]string{"sched": fmt.Sprint(1 + i%2)}})
 				}
 				// cold-start processes: the first library calls of the process are concurrent
-				for i, k := range []int{2, 4, 3} {
-					out = append(out, Child{TimeoutS: 400, Flavour: "race", NCPU: k, GOMAXPROCS: []int{0, 8, 0}[i], Shard: 10 + i, NShards: 1, Params: map[string]string{"part": "coldstart"}})
+				for i, k := range []int{2, 2, 2} {
+					out = append(out, Child{TimeoutS: 400, Flavour: "race", NCPU: k, GOMAXPROCS: []int{0, 8, 4}[i], Shard: 10 + i, NShards: 1, Params: map[string]string{"part": "coldstart", "coldconf": []string{"0", "1", "2"}[i]}})
 				}
 				return out
 			}
@@ -55,7 +56,7 @@ func init() {
 				}
 			}
 			for i := 0; i < 16; i++ {
-				out = append(out, Child{TimeoutS: 1200, Flavour: "race", NCPU: 1 + i%5, GOMAXPROCS: []int{0, 8, 2, 16}[i%4], Shard: 100 + i, NShards: 1, Params: map[string]string{"part": "coldstart"}})
+				out = append(out, Child{TimeoutS: 1200, Flavour: "race", NCPU: 2 + i%5, GOMAXPROCS: []int{0, 8, 2, 16}[i%4], Shard: 100 + i, NShards: 1, Params: map[string]string{"part": "coldstart", "coldconf": []string{"0", "1", "0", "2"}[i%4]}})
 			}
 			return out
 		},
@@ -78,8 +79,18 @@ type c12event struct {
 // afterwards the same instances are executed alone in the warm process and must give the same outputs.
 func c12cold(c *mon.Ctx) {
 	w, gmp := runtime.NumCPU(), runtime.GOMAXPROCS(0)
-	o := newOpCtx(nil, c.Seed*1000+int64(c.Shard), c.Rand(fmt.Sprintf("c12cold/%d", c.Shard))) // uses the reference only
+	var env *Env
 	kinds := []int{opSqrt, opCodec, opElement, opMSM, opFrPool, opTranscript, opCRS, opBatch, opExecute, opSharedInputs}
+	if c.Config["coldconf"] == "1" || c.Config["coldconf"] == "2" {
+		// variant: the configuration is built first (by this goroutine alone); everything that is initialised lazily on
+		// the first proof / verification / commitment is then still cold and is first used by many goroutines at once
+		env = GetEnv()
+		kinds = []int{opVerify, opProve, opIPA, opCommit, opVerifyMalformed, opSharedInputs, opProofIO, opMSM, opCodec, opVerify}
+	}
+	o := newOpCtx(env, c.Seed*1000+int64(c.Shard), c.Rand(fmt.Sprintf("c12cold/%d", c.Shard)))
+	if c.Config["coldconf"] == "2" {
+		c12coldVerify(c, env, o) // verifier-first variant: proofs are prepared alone, the first verifications are simultaneous
+	}
 	const G = 20
 	events := make([][]c12event, G)
 	c.Case("coldstart/concurrent-first-use", func() {
@@ -129,6 +140,59 @@ func c12cold(c *mon.Ctx) {
 	})
 	c.Count("hook.multiproof.group.send", 1)
 	c.Count("hook.msm.chunk.send", 1)
+}
+
+// c12coldVerify: honest proofs are prepared by this goroutine alone (prover and commitment code only); the very first
+// verifications of the process are then made by all goroutines at the same instant. Every one must accept.
+func c12coldVerify(c *mon.Ctx, env *Env, o *opCtx) {
+	const G = 16
+	type job struct {
+		label string
+		Cs    []*banderwagon.Element
+		ys    []*fr.Element
+		zs    []uint8
+		pr    *multiproof.MultiProof
+	}
+	jobs := make([]job, G)
+	rng := c.Rand("coldverify")
+	for g := range jobs {
+		label, Cs, fs, zs, ys := o.buildStatement(rng, 1+g%5)
+		pr, err := multiproof.CreateMultiProof(common.NewTranscript(label), env.Conf, Cs, fs, zs)
+		if err != nil {
+			c.Note("prover failed while preparing the cold verification: " + err.Error())
+			return
+		}
+		jobs[g] = job{label, Cs, ys, zs, pr}
+	}
+	c.Case("coldstart/first-verifications-at-once", func() {
+		var wg sync.WaitGroup
+		var ready int32
+		oks := make([]bool, G)
+		errs := make([]error, G)
+		for g := 0; g < G; g++ {
+			g := g
+			wg.Add(1)
+			go func() {
+				defer wg.Done()
+				atomic.AddInt32(&ready, 1)
+				for atomic.LoadInt32(&ready) < G { // spin barrier: the calls start within microseconds of each other
+				}
+				oks[g], errs[g] = multiproof.CheckMultiProof(common.NewTranscript(jobs[g].label), env.Conf, jobs[g].pr, jobs[g].Cs, jobs[g].ys, jobs[g].zs)
+			}()
+		}
+		wg.Wait()
+		for g := range oks {
+			if !oks[g] || errs[g] != nil {
+				c.Fail("cold-start-verification-rejects-honest-proof", fmt.Sprintf("one of the first %d concurrent CheckMultiProof calls of the process rejected an honest proof (ok=%v err=%v)", G, oks[g], errs[g]), nil)
+			}
+			// the same call again, now warm and alone
+			if ok2, err2 := multiproof.CheckMultiProof(common.NewTranscript(jobs[g].label), env.Conf, jobs[g].pr, jobs[g].Cs, jobs[g].ys, jobs[g].zs); !ok2 || err2 != nil {
+				c.Note("the prepared proof does not verify when checked alone either (C01's subject)")
+			}
+			c.Count("cold_start_operations", 1)
+			c.Eval(fmt.Sprintf("coldstart|first-CheckMultiProof-at-once|P=%d|W=%d", runtime.GOMAXPROCS(0), runtime.NumCPU()), true)
+		}
+	})
 }
 
 func runC12(c *mon.Ctx) {
